@@ -436,7 +436,14 @@ def decode_param(doc: Doc, pname: str, cur: Cursor, env: Env) -> Item:
         if pt.kind == "Enumerated":
             raise RefUnspecified("binary-encoded enumeration")
         return Item(pname, v, v, start=start, width=L)
-    raw = decode_numeric_raw(enc, cur)
+    try:
+        raw = decode_numeric_raw(enc, cur)
+    except RefUnspecified:
+        if isinstance(enc, IntEnc) and enc.lsb_first and enc.bits % 8 and pt.kind == "Integer" and enc.default_cal is None and not enc.ctx_cals:
+            # which VALUE a little-endian field of, say, 12 bits has is not specified - that it occupies 12 bits is: the item is
+            # there, its value is not judged, the cursor and everything after it are
+            return Item(pname, 0, 0, start=start, width=enc.bits, unjudged=True)
+        raise
     if pt.kind == "Enumerated":
         for v, lab in pt.enum:
             key = float(v) if isinstance(enc, FloatEnc) else int(v)
